@@ -24,6 +24,13 @@ def run(ctx, chk):
                                    "(append / successful push / successful add_chunk / root), or raises creation_failed, or "
                                    "raises syntax_error")
     chk.rule("C05.reserved", "reserved/unsupported initial bytes return ERROR having consumed nothing (T-dispatch)")
+    chk.rule("C05.nedata", "a head or payload that does not fit the buffer is reported by the decoder as NEDATA (which cbor_load maps "
+                           "to NOTENOUGHDATA) under the non-wrapping test 'needed > provided - claimed': necessary for 'a truncated "
+                           "item is never given a hard error'")
+    chk.rule("C05.nedata-wrap", "the pending-length arithmetic of the decoder cannot wrap")
+    chk.rule("C05.claim", "claims are head byte, argument bytes, payload")
+    chk.rule("C05.nothing-left", "cbor_load, the builder callbacks and _cbor_builder_append release or hand off every reference and "
+                                 "raw block they own on every path (shared with C04.client / C06.blocks)")
     chk.not_decided += ["'every proper prefix of an acceptable item gives NOTENOUGHDATA, never a hard error' quantifies over the accepted language",
                         "'nothing left allocated' is decided under C01 rule 4 / C04 / C06"]
     f = prog.fn("cbor_load")
@@ -207,6 +214,17 @@ def run(ctx, chk):
             chk.ob("C05.no-silent-drop", "%s path %d" % (bn, k), ok, bwhere, fn=bn, key="%s:%d" % (bn, k),
                    detail="" if ok else "the item is neither handed off nor is an error flag raised", path=pa.block_lines() if not ok else None)
     chk.floor("C05.no-silent-drop", "builder paths", nb, 80)
+    # truncation is reported as NEDATA, without wrapping
+    n_ = DR.per_byte(chk, "C05", prog, eff, {"nedata", "nedata-wrap", "claim"}, by_byte=by_byte)
+    chk.floor("C05.nedata", "per-byte truncation obligations", n_, 300)
+    # nothing left allocated
+    import ownership as O
+    from props.c06 import check_balance, check_blocks
+    cache_ = O.PathCache(prog, eff)
+    N_ = O.Nullness(prog, eff, cache_)
+    B_ = O.Balance(prog, eff, cache_, N_)
+    subjects = builders + ["_cbor_builder_append", "cbor_load"]
+    check_balance(chk, "C05.nothing-left", prog, eff, cache_, N_, B_, tables.constructors(prog, eff), fnames=subjects, floor=20)
     chk.exhaustive = True
 
 
